@@ -491,3 +491,74 @@ func Harness_C11_initTimeout() {
 	}
 	// (whether a prompt connection_init beats the timer is a scheduling matter: both outcomes are explored)
 }
+
+// Harness_C11_tickers: run() with the timers on - graphql-ws keep-alive,
+// graphql-transport-ws pong-only and ping/pong (missing pong tolerated or
+// not) - ticks firing at any scheduling point, zero or one long-lived
+// operation started, and the session ended either by the server's context
+// being cancelled at any point or by the peer going away: every timer
+// goroutine and the cancel watcher end, the operation is cancelled and
+// terminated under its id, the close callback fires once, frames are never
+// written concurrently, and the timers only ever emit their own frame type.
+func Harness_C11_tickers() {
+	mode := zzsym.Choice("timer", 4)
+	c11Subprotocol = graphqltransportwsSubprotocol
+	if mode == 0 {
+		c11Subprotocol = graphqlwsSubprotocol
+	}
+	me := &c11ME{} // unordered Sends are found by the race check on the fake's plain "sending" field
+	withOp := zzsym.Choice("op", 2) == 1
+	if withOp {
+		me.script = append(me.script, c11In{m: message{t: startMessageType, id: "a", payload: json.RawMessage(`{"query":"subscription { x }"}`)}})
+	}
+	serverCancels := zzsym.Choice("end", 2) == 0
+	if serverCancels {
+		me.blockAtEnd = make(chan struct{}) // the client stays connected and silent
+	}
+	ex := &c11Exec{payloads: 1, panicAt: -1, longLived: true}
+	cf := &c11Conf{}
+	if serverCancels {
+		cf.onClose = func() { close(me.blockAtEnd) } // closing the socket makes the pending read fail
+	}
+	c := c11New(me, ex, cf, 0)
+	ctx, cancel := context.WithCancel(context.Background())
+	defer cancel()
+	c.ctx = ctx
+	switch mode {
+	case 0:
+		c.KeepAlivePingInterval = time.Millisecond
+	case 1:
+		c.PongOnlyInterval = time.Millisecond
+	case 2:
+		c.PingPongInterval = time.Millisecond
+		c.MissingPongOk = true
+	case 3:
+		c.PingPongInterval = time.Millisecond
+	}
+	if serverCancels {
+		go cancel()
+	}
+	c.run()
+	left := zzsym.Quiesce()
+	zzsym.Assert(left == 0, "timer goroutines, the cancel watcher and the operation end once the connection is over")
+	zzsym.Assert(cf.nCloses() == 1, "the close callback fires exactly once")
+	zzsym.Assert(!me.overlap, "frames are never written concurrently")
+	fr := me.framesFor("a")
+	nStarted, nCancelled, nFinished := ex.counts()
+	if nStarted > 0 {
+		zzsym.Assert(c11WellFormed(fr), "a started id receives data*, then error and/or complete, nothing after")
+		zzsym.Assert(nCancelled == 1 && nFinished == 1, "ending the session cancels the running operation and it ends")
+		zzsym.Reach("c11.tickers.op")
+	} else {
+		zzsym.Assert(len(fr) == 0, "no result, error or completion for an id that was never started")
+	}
+	own := map[int]messageType{0: keepAliveMessageType, 1: pongMessageType, 2: pingMessageType, 3: pingMessageType}[mode]
+	for _, t := range me.types() {
+		ok := t == own || t == dataMessageType || t == errorMessageType || t == completeMessageType || t == connectionErrorMessageType
+		zzsym.Assert(ok, "a timer only ever emits its own frame type")
+	}
+	c.mu.Lock()
+	zzsym.Assert(len(c.active) == 0, "no operation stays registered")
+	c.mu.Unlock()
+	zzsym.Reach("c11.tickers")
+}
